@@ -1,9 +1,9 @@
 /-
-  C12 — `once="true"` in the two vocabularies of Model/MatchReal.lean: the rewrite "replace the first
+  C12 — `once="true"` in the location vocabulary of Model/MatchReal.lean: the rewrite "replace the first
   match in document order" driven by a relation on LOCATIONS (`xpOnceForest`, instantiated with the XPath
-  pattern semantics `patternSel`) and by MARKS, one Boolean per event (`mkOnceKids`, instantiated with
-  the verdicts of the real matcher `patternMarks`).  After the first replacement everything passes and
-  the marks are no longer read.
+  pattern semantics `patternSel`; driver verb `xspec`).  After the first replacement everything passes.
+  (The mark form `mkOnceKids`, a proof device between `onceList` and `xpOnceForest`, is in
+  Lemmas/MatchOnceXp.lean.)
 -/
 import Genshi.Model.MatchReal
 namespace Genshi.Match
@@ -37,24 +37,5 @@ def xpOnceForest (sel : Node → List Nat → Bool) (body : List BItem) : List N
     else
       let b := xpOnceForest sel body ns
       (a.1 ++ b.1, b.2)
-
-mutual
-  /-- output, the marks left (`[]` once an element was replaced), whether an element was replaced -/
-  def mkOnceNode (body : List BItem) : Node → List Bool → List Event × List Bool × Bool
-    | .leaf e, ms => ([e], ms.tail, false)
-    | .elem tg at_ kids, ms =>
-      if ms.headD false then (instantiate body (.start tg at_ :: (flattenList kids ++ [.end_ tg])), [], true)
-      else
-        let r := mkOnceKids body kids ms.tail
-        (.start tg at_ :: (r.1 ++ [.end_ tg]), r.2.1.tail, r.2.2)
-  def mkOnceKids (body : List BItem) : List Node → List Bool → List Event × List Bool × Bool
-    | [], ms => ([], ms, false)
-    | n :: ns, ms =>
-      let a := mkOnceNode body n ms
-      if a.2.2 then (a.1 ++ flattenList ns, [], true)
-      else
-        let b := mkOnceKids body ns a.2.1
-        (a.1 ++ b.1, b.2.1, b.2.2)
-end
 
 end Genshi.Match
